@@ -157,7 +157,7 @@ def seed_dag_order(top, rng):
   if tl:
     def mkey(f):
       owner = getattr(f, "__self__", None)
-      return (key(f) if owner is None else repr(owner), getattr(f, "__name__", ""), getattr(f, "__qualname__", ""))
+      return (repr(key(f)) if owner is None else repr(owner), getattr(f, "__name__", ""), getattr(f, "__qualname__", ""))
     pairs = sorted(tl, key=lambda e: (mkey(e[0]), mkey(e[1])))
     rng.shuffle(pairs)
     top._dag.top_level_callee_constraints = OrderedSet(pairs)
